@@ -324,6 +324,8 @@ def make_numpy(it):
         if isinstance(xs, Opaque) or getattr(it, "lenient_numpy", False):
             return Opaque("np.hstack(...)")
         xs = list(xs)
+        if any(isinstance(x, Opaque) for x in xs):
+            return Opaque("np.hstack([... unknown ...])")
         if all(isinstance(x, (Arr, Series)) for x in xs):
             return Cat([_arr(x) for x in xs])
         raise EngineError("hstack of non-arrays")
